@@ -61,7 +61,7 @@ fn main() {
         let known = report::load_known(&format!("{}/KNOWN_FINDINGS.json", verif_root));
         let _ = report::KNOWN_SIGNATURES.set(known.iter().filter(|k| k.status == "known").map(|k| (k.property.clone(), k.signature.clone())).collect());
         let replay_dir = PathBuf::from(std::env::var("VERIF_REPLAY_DIR").unwrap_or_else(|_| format!("{}/replays", verif_root)));
-        let limit: u64 = std::env::var("VERIF_WATCHDOG_S").ok().and_then(|s| s.parse().ok()).unwrap_or(60);
+        let limit: u64 = std::env::var("VERIF_WATCHDOG_S").ok().and_then(|s| s.parse().ok()).unwrap_or(180);
         report::watchdog_start(property.clone(), tier.clone(), seed, out.clone(), replay_dir, limit);
         let mut part = report::Part::new(&property, &tier, seed);
         props::run(&mut part);
